@@ -14,9 +14,9 @@
 (*   Rollback  `_directory_lock.take()` -> IndexWriter::new -> `*self = ..` *)
 (*             (src/indexer/index_writer.rs): the guard moves into the      *)
 (*             replacement writer, the lock is never released in between    *)
-(*   RollbackFail  the same path when IndexWriter::new fails (I/O error):   *)
-(*             the guard was moved out and dies with the failed call, the   *)
-(*             old writer object stays behind without a guard               *)
+(*   RollbackFail  the same path when building the replacement fails (I/O   *)
+(*             error): the old writer object still exists - unusable until  *)
+(*             a later rollback succeeds - and must still own the guard     *)
 (*   Drop / Wait   the writer object goes away, and its guard with it       *)
 (*   Kill      an indexing worker dies; the object (and its guard) stay     *)
 (* Creation attempts are grouped in rounds (1..NT threads behind a barrier, *)
@@ -30,7 +30,8 @@ CONSTANTS
   ReleaseOnFailedCtor,  \* TRUE = the code; FALSE = mutant: a failed construction keeps the lock
   RollbackKeepsLock,    \* TRUE = the code; FALSE = mutant: rollback drops the guard
   AtomicAcquire,        \* TRUE = the code; FALSE = mutant: "does the lock file exist?" then "create it"
-  AllowFailedRollback   \* include RollbackFail (recorded finding: breaks AtMostOneWriter)
+  FailedRollbackKeepsLock \* TRUE = the code; FALSE = mutant (the code before its repair): the guard was
+                        \* moved out before the replacement was built and dies with the failed call
 
 VARIABLES
   guard,   \* [k, id]: "free" | "w" (writer id) | "t" (thread id, inside the constructor) | "leak"
@@ -128,8 +129,10 @@ Rollback(w) ==
   /\ UNCHANGED <<pc, round, nextW>>
 
 RollbackFail(w) ==
-  /\ AllowFailedRollback /\ Quiet /\ w \in ws /\ w.g
-  /\ ws' = Set(w, "zombie", FALSE) /\ guard' = Free
+  /\ Quiet /\ w \in ws /\ w.g
+  /\ IF FailedRollbackKeepsLock
+     THEN ws' = Set(w, "dead", TRUE) /\ UNCHANGED guard
+     ELSE ws' = Set(w, "zombie", FALSE) /\ guard' = Free
   /\ steps' = steps + 1
   /\ UNCHANGED <<pc, round, nextW>>
 
